@@ -636,7 +636,7 @@ func TestC18(t *testing.T) {
 	}
 
 	// ---- random histories ----
-	nh := env.Pick(900, 40000)
+	nh := env.Pick(900, 12000)
 	if search {
 		nh = 3000
 	}
@@ -662,7 +662,7 @@ func TestC18(t *testing.T) {
 	for _, b := range foreignCorpus {
 		emitForeign(cs, st, b)
 	}
-	nf := env.Pick(400, 15000)
+	nf := env.Pick(400, 5000)
 	if search {
 		nf = 1500
 	}
